@@ -802,7 +802,7 @@ class ResistiveWallScale(Contract):
     replay = lambda self, o, model, pid: z_replay_spec(model)
 
     def short(self):
-        return 'ResistiveWall::__calcImpedance[scale]'
+        return 'ResistiveWall::prefactor'
 
     def requires(self, cx):
         # what the factory guards before building this model; xi > -1: at xi == -1 the formula gives a zero impedance
